@@ -21,7 +21,7 @@ Definition after_text (o : op) (a : after) : string :=
   end.
 (* a step of a history: one operation, or several issued concurrently (each with its own outcome and the text of its
    target's expression after the whole step) *)
-Inductive hstep := HOne (x : obs) | HPar (l : list obs).
+Inductive hstep := HOne (x : obs) | HPar (l : list obs) | HX (x : xop) (out : outcome) (a : after).
 Definition hist := (list string * list hstep)%type.
 
 Definition target (o : op) : string := match o with OSet p _ | OAdd p | ORemove p => p end.
@@ -40,24 +40,45 @@ Definition serial_match (stepf : graph -> op -> graph * outcome) (g : graph) (l 
     end in
   fold_right (fun p acc => match try p with Some g1 => Some g1 | None => acc end) None (perms l).
 
+Definition xtarget (x : xop) : string := match x with XSave p | XUnplug p | XPlug p | XProbe p => p | XRestart => "" end.
+
+(* one step of a history on (registry, persisted store); None = the observation is not explained *)
+Definition hstep_match (stepf : graph -> op -> graph * outcome) (st : graph * store) (h : hstep) : option (graph * store) :=
+  let '(g, s) := st in
+  match h with
+  | HX x out a =>
+      let '((g', s'), out') := xstep stepf st x in
+      let text := match a with AText t => t | ANew => "<ANew on an operation without request>" end in
+      if outcome_eqb out out' && match x with XRestart => true | _ => String.eqb text (print_opt (lookup g' (xtarget x))) end
+      then Some (g', s') else None
+  | HOne x =>
+      match serial_match stepf g [x] with
+      | Some g' => let '(o, out, _) := x in Some (g', store_after_op g s o out)
+      | None => None
+      end
+  | HPar l =>
+      match serial_match stepf g l with
+      | Some g' => Some (g', fold_left (fun s '(o, out, _) => store_after_op g s o out) l s)
+      | None => None
+      end
+  end.
+
 (* first step at which the model and the implementation differ *)
-Fixpoint model_bad (g : graph) (steps : list hstep) (k : N) : option N :=
+Fixpoint model_bad (st : graph * store) (steps : list hstep) (k : N) : option N :=
   match steps with
   | [] => None
-  | HOne x :: r => match serial_match step g [x] with Some g' => model_bad g' r (N.succ k) | None => Some k end
-  | HPar l :: r => match serial_match step g l with Some g' => model_bad g' r (N.succ k) | None => Some k end
+  | h :: r => match hstep_match step st h with Some st' => model_bad st' r (N.succ k) | None => Some k end
   end.
 
 (* first step at which the observation contradicts the specification (Spec.spec_step for a single operation, Spec.par_allowed
-   for concurrent ones).  g is the graph implied by the observations so far.  After the last step the whole graph must be
-   acyclic; with every := true this is also required after each step. *)
-Fixpoint spec_bad (every : bool) (g : graph) (steps : list hstep) (k : N) : option N :=
+   for concurrent ones, the load path = checked assignments of the persisted expressions).  The state is the one implied by
+   the observations so far.  After the last step the whole graph must be acyclic; with every := true also after each step. *)
+Fixpoint spec_bad (every : bool) (st : graph * store) (steps : list hstep) (k : N) : option N :=
   match steps with
-  | [] => if acyclic_b g then None else Some k
-  | s :: r =>
-      let l := match s with HOne x => [x] | HPar l => l end in
-      match serial_match spec_step g l with
-      | Some g' => if every && negb (acyclic_b g') then Some k else spec_bad every g' r (N.succ k)
+  | [] => if acyclic_b (fst st) then None else Some k
+  | h :: r =>
+      match hstep_match spec_step st h with
+      | Some st' => if every && negb (acyclic_b (fst st')) then Some k else spec_bad every st' r (N.succ k)
       | None => Some k
       end
   end.
@@ -70,6 +91,6 @@ Fixpoint collect (f : hist -> option N) (l : list hist) (i : N) : list N :=
   end.
 
 Definition bad_model (cases : list hist) : list N :=
-  collect (fun '(ids, steps) => model_bad (init_graph ids) steps 0%N) cases 0%N.
+  collect (fun '(ids, steps) => model_bad (init_graph ids, []) steps 0%N) cases 0%N.
 Definition bad_spec (every : bool) (cases : list hist) : list N :=
-  collect (fun '(ids, steps) => spec_bad every (init_graph ids) steps 0%N) cases 0%N.
+  collect (fun '(ids, steps) => spec_bad every (init_graph ids, []) steps 0%N) cases 0%N.
